@@ -260,6 +260,15 @@ edit('backend/witness/vector.go',[('''	case fr_bn254.Vector:
 		return a, nil
 ''')])
 save('benign-hdrbound-guarded','C08','backend/witness/vector.go','header count compared with len() before slicing')
+m('flowfn-glv-decomp','C16',['FLOW-FN','FLOW-REF'],'std/algebra/emulated/sw_emulated/point.go','''	// s == s3 + [λ]s4
+	c.scalarApi.AssertIsEqual(
+		c.scalarApi.Add(s3, c.scalarApi.Mul(s4, c.eigenvalue)),
+		s,
+	)
+
+	s1bits := c.scalarApi.ToBits(s1)''','''	_, _ = s3, s4
+
+	s1bits := c.scalarApi.ToBits(s1)''',note='GLV decomposition of the scalar no longer tied to s in scalarMulGLV')
 json.dump({'comment':'selftest mutants: each patch breaks one rule instance and must be detected by the listed rule(s) of its property; produced by tools/make_selftest.py','mutants':M}, open(os.path.join(root,'selftest','mutants.json'),'w'), indent=1)
 subprocess.run(['git','-C','/repo','worktree','remove','--force',WT],capture_output=True)
 print(len(M),'mutants')
